@@ -1,27 +1,32 @@
 SPEC = dict(
     property='C07',
     level='other',
-    level_text='The carry-over clauses are lemmas over contracts proved elsewhere plus a bounded run of the dispatcher: a peptide returned for '
-               'span (s,e) is ProFormaAnnotation.slice(s,e) of the protein, and slice#ensures (PROVED under C11, unbounded) is exactly '
+    level_text='Mixed. DEDUCTIVE: the dispatcher _return_digested_sequences is proved, for each of its five return types, to return one item per '
+               'span in order -- the span itself, or the slice of the protein at that span (for an unmodified protein: the bare annotation of '
+               'its residues s..e-1), or its serialization, alone or paired with the span -- and to reject an unknown return type with '
+               'ValueError; digest() with return_type span is proved to hand it exactly the spans the rules define (C06, contracts/digest.py); '
+               'and slice#ensures (PROVED under C11, unbounded) is exactly '
                '"residues s..e-1, each residue modification on the same residue, terminal modifications only with the terminus, global rules '
                'and labels kept, fully contained intervals kept"; the spans themselves are the proved C06 families; the search clause uses '
                'the (bounded-checked) occurrence contract of C16. What is checked HERE (bounded, labelled) is the composition on the real '
                'digest() / sequence generators: every returned peptide against the slice of an abstract view, the five return types '
                'describing the same peptides, the string re-parsing to the annotation, the peptide found again at offset s, and the masses of '
                'the zero-missed-cleavage peptides summing to the protein mass plus one water per cut.',
-    level_note='_return_digested_sequences (generator expressions over annotation methods, unmodified fast path through create_annotation) '
-               'is not under deductive contract in this revision; mass conservation is checked numerically (1e-6 per piece).',
+    level_note='serialize(), create_annotation() and the subsequence search are pure callees (bounded-checked); mass conservation is checked numerically (1e-6 per piece).',
     design_ref='DESIGN.md section 6, C07',
     technique='lemmas over contracts proved under C06/C11 (slice, span builders) + bounded run-time contract check of the real digest '
               'dispatcher (labelled stand-in)',
-    contracts=['annot'],
+    contracts=['annot', 'digest'],
     targets={'annot': ['peptacular.proforma.proforma_parser:ProFormaAnnotation.slice',
-                       'peptacular.proforma.proforma_parser:ProFormaAnnotation.has_mods']},
+                       'peptacular.proforma.proforma_parser:ProFormaAnnotation.has_mods'],
+             'digest': ['peptacular.digestion:_return_digested_sequences@' + t for t in ('span', 'annotation', 'str', 'annotation-span', 'str-span', 'unknown')] +
+                       []},
     bounded=[dict(name='C07-bounded', script='bounded/C07.py')],
     replay_finder='bounded/C07.py',
     explanation='slice#ensures re-proved in this check (it carries the first sentence of the property) + bounded composition check',
-    proved_clauses=['slice(s,e): exactly residues s..e-1, residue modifications on the same residues, termini only with the terminus, globals kept (C11 contract, re-discharged here)'],
-    bounded_clauses=['digest()/generators return slice(s,e) for every span, all five return types agree', 'string re-parses to the annotation; found again at offset s',
+    proved_clauses=['every return type of the digest dispatcher is, per span and in order, the slice of the protein at that span (or its text, or the span)',
+                    'slice(s,e): exactly residues s..e-1, residue modifications on the same residues, termini only with the terminus, globals kept (C11 contract, re-discharged here)'],
+    bounded_clauses=['the sequence generators; all five return types agree on real digests', 'string re-parses to the annotation; found again at offset s',
                      'zero-missed-cleavage masses sum to protein mass + one water per cut'],
     uncovered_clauses=['intervals straddling a cut (outside the property)'],
     assumptions=['Python int = mathematical integer', 'A-NOALIAS value semantics in slice'],
